@@ -2,6 +2,7 @@ package harness
 
 import (
 	"fmt"
+	"strings"
 
 	"verif/pgwire"
 )
@@ -37,15 +38,16 @@ type histOpts struct {
 }
 
 type histGen struct {
-	r    *Rand
-	c    *Case
-	o    histOpts
-	m    *Model
-	st   *MState
-	msgs []pgwire.FMsg
-	done int // messages already stepped through the model
-	nq   int
-	stop bool
+	longNames bool
+	r         *Rand
+	c         *Case
+	o         histOpts
+	m         *Model
+	st        *MState
+	msgs      []pgwire.FMsg
+	done      int // messages already stepped through the model
+	nq        int
+	stop      bool
 }
 
 func (g *histGen) oids() []uint32 {
@@ -101,6 +103,35 @@ func (g *histGen) genStmt(ext bool) *StmtProg {
 	}
 	if g.o.errs && r.Chance(1, 8) {
 		sp.Ops = append(sp.Ops, Op{K: "return", Err: g.err()})
+		return sp
+	}
+	if g.o.typedNull && len(sp.Cols) > 0 && r.Chance(1, 10) {
+		// the handler writes several rows through one reused slice of pointers
+		// to its own variables
+		fams := []uint32{pgwire.OIDBool, pgwire.OIDInt2, pgwire.OIDInt4, pgwire.OIDInt8, pgwire.OIDFloat8, pgwire.OIDText}
+		kinds := make([]string, len(sp.Cols))
+		for i := range sp.Cols {
+			sp.Cols[i].OID = fams[r.Intn(len(fams))]
+			for _, k := range goKindsFor[oidFamily(sp.Cols[i].OID)] {
+				if strings.HasPrefix(k, "ptr:") {
+					kinds[i] = k
+				}
+			}
+		}
+		for n := r.Range(2, 4); n > 0; n-- {
+			row := make([]Val, len(sp.Cols))
+			for i, c := range sp.Cols {
+				for {
+					v := genValRepr(r, c.OID, oidFamily(c.OID))
+					if v.G == kinds[i] {
+						row[i] = v
+						break
+					}
+				}
+			}
+			sp.Ops = append(sp.Ops, Op{K: "row", Row: row, Reuse: true})
+		}
+		sp.Ops = append(sp.Ops, Op{K: "written"}, Op{K: "complete", Tag: g.tag()})
 		return sp
 	}
 	nrows := r.PickInt(0, 1, 1, 2, 3)
@@ -259,6 +290,11 @@ func (g *histGen) add(ms ...pgwire.FMsg) {
 
 func (g *histGen) name(defined map[string]bool, pool string) string {
 	names := []string{"", pool + "1", pool + "2"}
+	if g.longNames {
+		// names beyond 63 bytes that differ only after a long common prefix
+		pre := pool + "_reporting_monthly_revenue_by_region_and_product_line_for_tenant_"
+		names = []string{"", pre + "select", pre + "delete"}
+	}
 	if g.o.names > 0 && g.o.names < 3 {
 		names = names[:g.o.names]
 	}
@@ -718,6 +754,7 @@ func genHistory(r *Rand, c *Case, o histOpts) {
 		c.Programs = map[string]*Program{}
 	}
 	g := &histGen{r: r, c: c, o: o}
+	g.longNames = o.extended && r.Chance(1, 10)
 	g.m = NewModel(c)
 	g.st = g.m.Start()
 	user, db := r.Ident(4), r.Ident(3)
